@@ -545,6 +545,13 @@ class DatasetProcessor:
                 logger.info("To keep these intermediate files for debug purposes use --keep_tmp flag")
 
         total_assignments, polya_found, self.all_read_groups = self.load_read_info(saves_file)
+        if self.args.read_assignments:
+            # a saved prefix stands for all files of the experiment it was collected from: grouped by file name, these files are
+            # the groups saved with the read assignments
+            several_files = len(self.all_read_groups) > 1
+            if getattr(self.args, "read_group_by_number_of_files", False):
+                self.args.read_group = "file_name" if several_files else None
+            self.args.use_technical_replicas = self.args.read_group == "file_name" and several_files
 
         polya_fraction = polya_found / total_assignments if total_assignments > 0 else 0.0
         logger.info("Total assignments used for analysis: %d, polyA tail detected in %d (%.1f%%)" %
